@@ -87,7 +87,7 @@ func isErr(o *WObs) bool { return o.Result.Reason.Kind == "ERROR" }
 var propSpecs = map[string]*propSpec{
 	"C01": {
 		id:      "C01",
-		streams: []stream{{"malformed", 12000}, {"wellformed", 6000}, {"graphs", 1500}, {"prereqs", 3000}, {"bigseg", 3000}, {"operators", 3000}, {"segprobe", 2000}, {"manykinds", 1000}, {"wide", 500}, {"bucketedge", 1500}},
+		streams: []stream{{"malformed", 12000}, {"wellformed", 6000}, {"graphs", 1500}, {"prereqs", 3000}, {"bigseg", 3000}, {"operators", 3000}, {"segprobe", 2000}, {"segarray", 1500}, {"manykinds", 1000}, {"wide", 500}, {"bucketedge", 1500}},
 		proj: func(o *WObs) any {
 			return []any{o.Outcome == "done", o.Result.Index != nil, o.Result.Reason.Kind == "ERROR", o.Result.Reason.ErrorKind}
 		},
@@ -156,7 +156,7 @@ var propSpecs = map[string]*propSpec{
 	},
 	"C04": {
 		id:      "C04",
-		streams: []stream{{"operators", 40000}, {"wellformed", 4000}, {"wide", 800}},
+		streams: []stream{{"operators", 40000}, {"wellformed", 4000}, {"wide", 800}, {"segarray", 2000}},
 		proj: func(o *WObs) any {
 			return []any{o.Result.Reason.Kind, o.Result.Reason.ErrorKind, o.Result.Reason.RuleIndex}
 		},
@@ -170,7 +170,7 @@ var propSpecs = map[string]*propSpec{
 	},
 	"C05": {
 		id:      "C05",
-		streams: []stream{{"segments", 15000}, {"segprobe", 8000}, {"bucketdense", 4000}, {"segsplit", 3000}, {"wide", 800}, {"bucketedge", 1500}},
+		streams: []stream{{"segments", 15000}, {"segprobe", 8000}, {"bucketdense", 4000}, {"segsplit", 3000}, {"wide", 800}, {"bucketedge", 1500}, {"segarray", 2000}},
 		proj: func(o *WObs) any {
 			return []any{o.Result.Reason.Kind, o.Result.Reason.ErrorKind, o.Result.Reason.RuleIndex, o.SegLookups}
 		},
